@@ -82,15 +82,21 @@ def is_rotation(old, new):
     return old != new and len(old) == len(new) and any(old[k:] + old[:k] == new for k in range(1, len(old)))
 
 
-def mos_format(mos, wd, n, text):
+MAIN2 = '.import * from "inc.asm"\n  nop\n'        # two-file projects: the buffer under test is the imported file
+
+
+def mos_format(mos, wd, n, text, two=False):
     d = os.path.join(wd, "f%05d" % n)
     shutil.rmtree(d, ignore_errors=True)
     os.makedirs(d)
     open(os.path.join(d, "mos.toml"), "w").write('[build]\nentry = "main.asm"\n')
-    with open(os.path.join(d, "main.asm"), "w", encoding="utf-8", newline="") as f:
+    target = "inc.asm" if two else "main.asm"
+    if two:
+        open(os.path.join(d, "main.asm"), "w").write(MAIN2)
+    with open(os.path.join(d, target), "w", encoding="utf-8", newline="") as f:
         f.write(text)
     p = subprocess.run([mos, "--no-color", "-e", "Short", "format"], cwd=d, capture_output=True, text=True, timeout=60)
-    with open(os.path.join(d, "main.asm"), encoding="utf-8", newline="") as f:
+    with open(os.path.join(d, target), encoding="utf-8", newline="") as f:
         out = f.read()
     shutil.rmtree(d, ignore_errors=True)
     return p.returncode == 0, out
@@ -133,28 +139,35 @@ def main(tier):
     os.makedirs(root)
     open(os.path.join(root, "mos.toml"), "w").write('[build]\nentry = "main.asm"\n')
     open(os.path.join(root, "main.asm"), "w").write("nop\n")
+    open(os.path.join(root, "inc.asm"), "w").write("nop\n")
 
     def chunk(k):
         srv = L.Server(mos, root)
         srv.initialize()
-        path = os.path.join(root, "main.asm")
-        srv.did_open(path, "nop\n")
+        path1, path2 = os.path.join(root, "main.asm"), os.path.join(root, "inc.asm")
+        srv.did_open(path1, "nop\n")
         out = []
         for i in range(k, nbuf, 6):
             text = bufs[i]
-            fmt_ok, formatted = mos_format(mos, wd, i, text)
+            two = i % 4 == 3                              # every fourth buffer is formatted as the imported file of a two-file project
+            path = path2 if two else path1
+            fmt_ok, formatted = mos_format(mos, wd, i, text, two)
             for pas, buf in enumerate([text, formatted] if fmt_ok else [text]):       # second pass: already formatted text
                 if not srv.alive():
                     srv.kill()
                     srv = L.Server(mos, root)
                     srv.initialize()
-                    srv.did_open(path, "nop\n")
-                srv.did_change(path, buf)
-                ok2, formatted2 = (fmt_ok, formatted) if pas == 0 else mos_format(mos, wd, i, buf)
+                    srv.did_open(path1, "nop\n")
+                if two:
+                    srv.did_change(path1, MAIN2)
+                    srv.did_open(path2, buf)
+                else:
+                    srv.did_change(path1, buf)
+                ok2, formatted2 = (fmt_ok, formatted) if pas == 0 else mos_format(mos, wd, i, buf, two)
                 for kind in ("formatting", "onType"):
                     r = srv.request(*L.params_for(kind, path, 0, 0))
                     eds = r["result"] if r["status"] == "ok" else None
-                    out.append({"id": i * 10 + pas * 2 + (kind == "onType"), "kind": kind, "status": r["status"], "answered": eds is not None, "doc": units(buf),
+                    out.append({"id": i * 10 + pas * 2 + (kind == "onType"), "kind": kind + ("/imported file" if two else ""), "status": r["status"], "answered": eds is not None, "doc": units(buf),
                                 "edits": [{"sl": e["range"]["start"]["line"], "sc": e["range"]["start"]["character"], "el": e["range"]["end"]["line"],
                                            "ec": e["range"]["end"]["character"], "new": units(e["newText"])} for e in (eds or [])],
                                 "fmtOk": ok2, "formatted": units(formatted2), "_text": buf, "_fmt": formatted2, "_raw": eds})
